@@ -283,6 +283,20 @@ package proxy
 //@ func init#1$7
 //@   ensures [own_policy_object] fresh(result)
 
+//@ unit upstream_ports props=C11 filter=`proxy\.parseUpstream$`
+//@ // "ends in bounded time": a port range in an upstream address expands to at most one host per TCP port, for every
+//@ // argument text; index and slice safety of the address dissection; the expansion loop terminates without overflow.
+//@ use @verif/specs/stdlib.spec:stdlib
+//@ extern strings.Split
+//@   ensures sep != "" ==> len(result) == strings.Count(s, sep) + 1
+//@ extern strconv.Atoi
+//@ extern fmt.Sprintf
+//@ func parseUpstream
+//@   ensures [one_host_per_port_at_most] result1 == nil ==> len(result0) <= 65536
+//@   loop 1 invariant pIni <= p && p <= pEnd + 1 && len(hosts) == p - pIni
+//@   loop 1 decreases pEnd - p + 1
+//@   check overflow
+
 //@ unit setup_sweep props=C11 files=setup.go,upstream.go nilchecks=on nonnil_params=on dispenser_variants=on exclude=`staticUpstream\)\.(HealthCheckWorker|NewHost|Select|healthCheck|healthCheck\$1|resolveHost)$|headerReplacements\)\.Add$|proxy\.(NewStaticUpstreams|RegisterPolicy|parseUpstream|replacePort)$` filter=`.`
 //@ // Safety sweep of this directive's setup code: index, slice, division, nil-map store, nil dereference, explicit panic,
 //@ // and termination of the loops driven by the token cursor. No functional contract; callees in the dispenser through their contracts.
